@@ -32,3 +32,25 @@ Proof.
   intros Hk. rewrite (rtr_rule w k m Hk). unfold src_pdo_remote_request_sends.
   destruct (m_enabled m && m_rtr m); reflexivity.
 Qed.
+
+(* PdoMap.subscribe / Network.subscribe: the subscriber table grows by (COB-ID, this map) exactly when the translated
+   code calls Network.subscribe and that call appends; nothing else changes *)
+Theorem src_pdo_subscribe_eq w k m : nth_error (w_maps w) k = Some m ->
+  fst (step w (LSubscribe k)) =
+  if src_pdo_subscribe_calls (m_enabled m) false && src_net_subscribe_adds (has_sub (w_subs w) (m_cob m) k) false
+  then {| w_maps := w_maps w; w_subs := w_subs w ++ [(m_cob m, k)]; w_sent := w_sent w; w_cblog := w_cblog w |}
+  else w.
+Proof.
+  intros Hk. unfold step, with_map. rewrite Hk. unfold src_pdo_subscribe_calls, src_net_subscribe_adds.
+  destruct (m_enabled m); cbn [andb]; [|reflexivity].
+  destruct (has_sub (w_subs w) (m_cob m) k); reflexivity.
+Qed.
+
+(* PdoMap.transmit: exactly one data frame (COB-ID, current data) is handed to the bus, which delivers it *)
+Theorem src_pdo_transmit_eq w k m ts : nth_error (w_maps w) k = Some m ->
+  w_sent (fst (step w (LTransmit k ts))) =
+  if src_pdo_transmit_sends false then w_sent w ++ [(m_cob m, m_data m, false)] else w_sent w.
+Proof.
+  intros Hk. unfold step, with_map. rewrite Hk. unfold src_pdo_transmit_sends, arrive. cbn [fst w_maps w_subs w_sent w_cblog].
+  destruct (deliver (w_maps w) (w_subs w) (m_cob m) (m_data m) ts) as [maps' log]. reflexivity.
+Qed.
